@@ -1,6 +1,7 @@
 package main
 
 import (
+	"sort"
 	"fmt"
 	"strings"
 
@@ -160,6 +161,38 @@ func (m *Model) prevClaimLit(l Lit, truth bool) bool {
 		return false
 	}
 	// `x && wasLeader` kept in a local: phi[wasLeader | false]; true implies wasLeader
+	if ph, isPhi := l.S.V.(*ssa.Phi); truth && isPhi && l.S.Op == "phi" {
+		// `wasLeader && x`: the edge that carries x is taken only under wasLeader
+		n, okAll := 0, true
+		for i, e := range ph.Edges {
+			if k, isC := constBool(e); isC && !k {
+				continue
+			}
+			n++
+			if m.prevClaimLit(Lit{S: m.Sym.Of(e), Truth: true}, true) {
+				continue
+			}
+			pred := ph.Block().Preds[i]
+			si := 0
+			for j, sx := range pred.Succs {
+				if sx == ph.Block() {
+					si = j
+				}
+			}
+			viaEdge := false
+			for _, el := range m.EdgeLits(pred, si) {
+				if m.prevClaimLit(el, true) {
+					viaEdge = true
+				}
+			}
+			if !viaEdge {
+				okAll = false
+			}
+		}
+		if okAll && n > 0 {
+			return true
+		}
+	}
 	if truth && l.S.Op == "phi" {
 		n := 0
 		for _, a := range l.S.Args {
@@ -442,54 +475,99 @@ func checkC08(c *Ctx) {
 		})
 	}
 	if asyncPromote {
+		// waitBefore: an instruction `at` of function g executes after a blocking wait on every path:
+		// a wait in g (or the functions its body is split into) dominates it, or g is a closure /
+		// goroutine / helper every creation or call site of which does
+		var waitBefore func(g *ssa.Function, at ssa.Instruction, depth int) bool
+		waitBefore = func(g *ssa.Function, at ssa.Instruction, depth int) bool {
+			if depth > 6 {
+				return false
+			}
+			found := false
+			eachInstr(g, func(x ssa.Instruction) {
+				if x != at && m.isBlockingInstr(x) && dominatesInstr(x, at) {
+					found = true
+				}
+			})
+			if found {
+				return true
+			}
+			if g.Parent() != nil {
+				if mc := m.Sym.closureOf[g]; mc != nil {
+					return waitBefore(mc.Parent(), mc, depth+1)
+				}
+				return false
+			}
+			sites := m.callers[g]
+			if len(sites) == 0 {
+				return false
+			}
+			for _, cs := range sites {
+				if !waitBefore(cs.Caller, cs.Instr, depth+1) {
+					return false
+				}
+			}
+			return true
+		}
+		// stopSide: every chain of creation / call sites of g ends in a stop unit
+		var stopSide func(g *ssa.Function, depth int) bool
+		stopSide = func(g *ssa.Function, depth int) bool {
+			if depth > 6 {
+				return false
+			}
+			if containsFn(m.StopUnits, g) {
+				return true
+			}
+			if g.Parent() != nil {
+				return stopSide(g.Parent(), depth+1)
+			}
+			sites := m.callers[g]
+			if len(sites) == 0 {
+				return false
+			}
+			for _, cs := range sites {
+				if !stopSide(cs.Caller, depth+1) {
+					return false
+				}
+			}
+			return true
+		}
+		var unordered, stopUnordered []string
+		var firstBad, firstStopBad ssa.Instruction
+		nOther, nStop := 0, 0
 		for _, f := range m.Funcs {
 			eachInstr(f, func(in ssa.Instruction) {
 				if !m.invokesFieldValue(in, m.OnDemote) {
 					return
 				}
-				own := m.ownerOf(topFunc(f))
-				at := in
-				if f != own {
-					// the invocation sits in a closure / helper: judge the instruction of the owner that stands for it
-					if l := m.liftTo(own, in); l != nil {
-						at = l
-					} else if mc := m.Sym.closureOf[f]; mc != nil {
-						// the closure's creation site, itself possibly in a function the owner's body is split into
-						if l := m.liftTo(own, mc); l != nil {
-							at = l
+				ordered := waitBefore(f, in, 0)
+				if stopSide(f, 0) {
+					nStop++
+					if !ordered {
+						stopUnordered = append(stopUnordered, shortFn(f)+" at "+c.posOf(in))
+						if firstStopBad == nil {
+							firstStopBad = in
 						}
+					}
+					return
+				}
+				nOther++
+				if !ordered {
+					unordered = append(unordered, shortFn(f)+" at "+c.posOf(in))
+					if firstBad == nil {
+						firstBad = in
 					}
 				}
-				var orderedAt func(own *ssa.Function, at ssa.Instruction, depth int) bool
-				orderedAt = func(own *ssa.Function, at ssa.Instruction, depth int) bool {
-					found := false
-					m.eachUnitInstr(own, func(x ssa.Instruction) {
-						if !m.isBlockingInstr(x) {
-							return
-						}
-						if lx := m.liftTo(own, x); lx != nil && at.Parent() == own && lx != at && dominatesInstr(lx, at) {
-							found = true
-						}
-					})
-					if found || depth > 2 {
-						return found
-					}
-					// a helper with several call sites: every call site must be ordered
-					sites := m.callers[own]
-					if own.Parent() != nil || len(sites) < 2 {
-						return false
-					}
-					for _, cs := range sites {
-						if cs.IsGo || !orderedAt(m.ownerOf(cs.Caller), cs.Instr, depth+1) {
-							return false
-						}
-					}
-					return true
-				}
-				ordered := orderedAt(own, at, 0)
-				key := fmt.Sprintf("OnDemote invocation #%d in %s is ordered after the term's OnPromote", ordinalOf(f, in, func(x ssa.Instruction) bool { return m.invokesFieldValue(x, m.OnDemote) }), shortFn(f))
-				c.check(ordered, "R4", key, in, "OnPromote is invoked in its own goroutine (%s); a wait (receive, select, WaitGroup) that can order this invocation after it dominates the invocation: %v. Without one a term that ends before the promotion goroutine is scheduled (an application that calls ValidateTokenOrDemote as soon as IsLeader() turns true, a record deleted right after the acquisition) delivers OnDemote BEFORE that term's OnPromote.", c.posOf(promoteSite), ordered)
 			})
+		}
+		if nStop > 0 {
+			// one obligation for the stop side, keyed independently of the helpers the invocations sit in
+			sort.Strings(stopUnordered)
+			c.check(len(stopUnordered) == 0, "R4", "OnDemote of a stop call is ordered after the term's OnPromote", firstStopBad, "%d invocation sites reached only from the stop units; not preceded on every path by a wait (the stop's wait for the WaitGroup the promotion goroutine is registered with): %v", nStop, stopUnordered)
+		}
+		if nOther > 0 {
+			sort.Strings(unordered)
+			c.check(len(unordered) == 0, "R4", "OnDemote of a demotion is ordered after the term's OnPromote", firstBad, "OnPromote is invoked in its own goroutine (%s); demotion-side invocations of OnDemote that no wait (receive, select, WaitGroup) orders after it: %v. A term that ends before the promotion goroutine is scheduled (an application that calls ValidateTokenOrDemote as soon as IsLeader() turns true, a record deleted right after the acquisition) delivers OnDemote BEFORE that term's OnPromote.", c.posOf(promoteSite), unordered)
 		}
 	}
 }
